@@ -56,6 +56,10 @@ def inputs(ctx):
     for _ in range(150 if ctx.quick else 2000):
         add(gen.random_program(rng, bw, n_ops=rng.choice([10, 30, 60]), hostile=rng.choice([0, 0.05, 0.15])),
             gen.random_config(rng), "random")
+    # work outside the VM must halt too: mask / multiply / divide idioms with arbitrary constants drive the loops of the
+    # lifting passes (which_power_of_2, get_region), which the watchdog does not reach
+    for code in gen.mask_shift_programs(rng, bw, 150 if ctx.quick else 3000):
+        add(code, (30000000, 10, 50, 250, 394, 0), "lifting-arithmetic")
     for code in gen.cyclic_evidence_programs(rng, 80 if ctx.quick else 1500):
         add(code, (30000000, 10, 50, 250, 394, 0), "cyclic-evidence")
     return progs
